@@ -214,6 +214,14 @@ Section Migrator.
     d_schema (cur (fst (run_steps ss (mkconn (mkdb s RNoTable 0) None)))).
 End Migrator.
 
+(* the migration-step statements a trace executed (all of them / those that took effect) *)
+Definition stmts_of (tr : list ev) : list string :=
+  flat_map (fun e => match e with EStmt raw _ => [raw] | _ => [] end) tr.
+Definition ok_stmts_of (tr : list ev) : list string :=
+  flat_map (fun e => match e with EStmt raw true => [raw] | _ => [] end) tr.
+(* the part of a database the migrator is responsible for *)
+Definition sr (d : db) : schema * rev := (d_schema d, d_rev d).
+
 (* ---------- the concrete instance: generated steps, hashlib.md5 as a finite table ---------- *)
 
 Fixpoint table_md5 (t : list (string * string)) (x : string) : string :=
